@@ -353,6 +353,8 @@ def run_impl(case, tag="x"):
                   m.done()
               elif op[0] == "ondisable":
                   m.on_disable()
+              elif op[0] == "setk":
+                  m._k = op[1]
               elif op[0] == "execute":
                   clock.t = op[1]
                   m.execute()
@@ -722,7 +724,80 @@ def oracle(case, obs):
     if not offc:
         out += oracle_chain(case, obs)
     out += oracle_auto(case, obs)
+    out += oracle_asif(case, obs)
     return out
+
+
+def oracle_asif(case, obs):
+    """C13 as it is stated: while the autonomous machine runs, each on_iteration() does what engage(); execute() does on
+    the same machine definition.  The reference is the implementation itself: a machine with the same states and
+    the same in-state scripts -- another object of the same class -- driven by engage(); execute() at the same clock readings (done() where the autonomous
+    machine is enabled again: the next engage() starts over).  Compared: the state functions called and their arguments,
+    in every iteration after which the autonomous machine is still running or in which done() was invoked (the iteration
+    in which the last timed state expires is where the two differ by definition: the engaged machine starts over)."""
+    if not (case["auto"] and case["hist"] and case["hist"][0][0] == "aenable"):
+        return []
+    if any(op[0] not in ("aenable", "aiter", "adisable", "setdur") for op in case["hist"]):
+        return []
+    dis = True
+    for op in case["hist"]:
+        if op[0] == "aenable":
+            if not dis:
+                return []         # on_enable() twice with no on_disable() between: not how the framework drives a mode
+            dis = False
+        elif op[0] == "adisable":
+            dis = True
+    cb = json.loads(json.dumps(case))      # (the same class: done() of an AutonomousStateMachine also withdraws the engage request)
+    cb.pop("twin", None)
+    hb, at = [], {}
+    latch = False
+    for i, (op, (evs, is_exec, cur)) in enumerate(zip(case["hist"], obs)):
+        if op[0] == "aenable":
+            hb.append(["done"])
+            latch = True
+        elif op[0] == "adisable":
+            hb.append(["ondisable"])
+            latch = False
+        elif op[0] == "setdur":
+            hb.append(list(op))
+        elif latch:
+            # the in-state scripts are indexed by the number of state-function calls made so far: the reference takes up
+            # the count of the autonomous machine at every iteration (it also ran in iterations that are not compared)
+            ks = [e[6] for e in evs if e[0] == "call"]
+            if ks:
+                hb.append(["setk", ks[0]])
+            hb.append(["engage", None, False])
+            at[i] = len(hb)
+            hb.append(["execute", op[1]])
+            latch = bool(is_exec)
+    cb["hist"] = hb
+    try:
+        obs_b, _ = run_impl(cb, tag="asif")
+    except Exception:      # noqa: the reference could not be built
+        return []
+    latch = False
+    for i, (op, (evs, is_exec, cur)) in enumerate(zip(case["hist"], obs)):
+        if any(e[0] == "err" for e in evs):
+            break
+        if op[0] == "aenable":
+            latch = True
+        elif op[0] == "adisable":
+            latch = False
+        elif op[0] == "aiter" and latch:
+            if i not in at or at[i] >= len(obs_b) or any(e[0] == "err" for e in obs_b[at[i]][0]):
+                break
+            if not is_exec:
+                latch = False
+            if any(e[0] == "done" and e[2] == 0 for e in evs):
+                continue          # a done() logged at depth 0 is the library's own, made when the last timed state expired
+            if not is_exec and not any(e[0] == "done" for e in evs):
+                continue
+            ca = [[e[1], e[2], e[3], e[4]] for e in evs if e[0] == "call"]
+            cr = [[e[1], e[2], e[3], e[4]] for e in obs_b[at[i]][0] if e[0] == "call"]
+            if ca != cr:
+                return [("C13", "op %d %r: the autonomous machine called %r (state, tm, state_tm, initial_call); the same machine "
+                                "definition driven by engage(); execute() at the same clock readings called %r" % (i, op, ca, cr))]
+    return []
 
 
 def oracle_auto(case, obs):
@@ -737,10 +812,29 @@ def oracle_auto(case, obs):
     latch = False
     fresh = False        # on_disable() ... on_enable(): the next on_iteration must start at the first state, tm = 0
     disabled = False
+    t0 = None            # clock reading of the first iteration of a period begun by on_disable(); on_enable()
     for opi, (op, (evs, is_exec, cur)) in enumerate(zip(case["hist"], obs)):
         if any(e[0] == "err" for e in evs):
             break
         kind = op[0]
+        if kind in ("aenable", "adisable"):
+            t0 = None
+        elif kind == "aiter" and latch:
+            if fresh:
+                t0 = op[1]
+            if t0 is not None:
+                # "starts again ... with tm at zero": from there tm is the time since that first iteration, for as long as
+                # the machine runs on (a done() ends what this clause talks about)
+                if any(e[0] == "done" for e in evs):
+                    t0 = None
+                else:
+                    for e in evs:
+                        if e[0] == "call" and e[1] != case["default"] and isinstance(e[2], int) and e[2] != e[7] - t0:
+                            out.append(("C13", "op %d %r: s%d is called with tm=%d ticks, %d ticks after the first on_iteration() of "
+                                               "this autonomous period (on_disable(); on_enable() start again with tm at zero)"
+                                               % (opi, op, e[1], e[2], e[7] - t0)))
+                            t0 = None
+                            break
         if kind == "aenable":
             latch = True
             fresh = disabled
